@@ -50,28 +50,29 @@ func (s Schedule) dense() []int {
 
 // Config of one exploration.
 type Config struct {
-	Bound         int           // maximal number of deviations
-	Shard, Shards int           // this process handles root children j with j%Shards==Shard
-	Deadline      time.Time     // zero: none
-	ValidateEvery int           // replay every n-th execution twice (0: never)
-	MaxSteps      int           // per execution
-	ExpectCrash   bool          // scenario handles crashes itself
-	Confirm       int           // re-runs needed to confirm a violation (default 5)
-	MaxViolations int           // stop collecting after that many distinct fingerprints
-	Progress      func(s *Stats) // optional
+	Bound          int            // maximal number of deviations
+	Shard, Shards  int            // this process handles root children j with j%Shards==Shard
+	Deadline       time.Time      // zero: none
+	ValidateEvery  int            // replay every n-th execution twice (0: never)
+	MaxSteps       int            // per execution
+	ExpectCrash    bool           // scenario handles crashes itself
+	StepLimitFails bool           // an execution that does not end within MaxSteps is a violation (non-termination), not an engine error
+	Confirm        int            // re-runs needed to confirm a violation (default 5)
+	MaxViolations  int            // stop collecting after that many distinct fingerprints
+	Progress       func(s *Stats) // optional
 }
 
 // Violation is a confirmed oracle failure.
 type Violation struct {
-	Fingerprint string         `json:"fingerprint"`
-	Clause      string         `json:"clause"`
-	Detail      string         `json:"detail"`
-	Schedule    Schedule       `json:"schedule"`
-	Deviations  int            `json:"deviations"`
-	Outcome     string         `json:"outcome,omitempty"`
-	Crash       *vrt.Crash     `json:"crash,omitempty"`
-	Blocked     []vrt.Blocked  `json:"blocked,omitempty"`
-	Count       int            `json:"count"`
+	Fingerprint string          `json:"fingerprint"`
+	Clause      string          `json:"clause"`
+	Detail      string          `json:"detail"`
+	Schedule    Schedule        `json:"schedule"`
+	Deviations  int             `json:"deviations"`
+	Outcome     string          `json:"outcome,omitempty"`
+	Crash       *vrt.Crash      `json:"crash,omitempty"`
+	Blocked     []vrt.Blocked   `json:"blocked,omitempty"`
+	Count       int             `json:"count"`
 	Flags       map[string]bool `json:"flags,omitempty"`
 }
 
@@ -152,7 +153,11 @@ func (e *explorer) failuresOf(r *vrt.Result) [][3]string {
 		sort.Strings(parts)
 		out = append(out, [3]string{"deadlock:" + Normalize(strings.Join(parts, ",")), "deadlock", fmt.Sprintf("%+v", r.Blocked)})
 	case "step-limit":
-		e.engineError("step limit reached (livelock or limit too low)")
+		if e.cfg.StepLimitFails {
+			out = append(out, [3]string{"non-termination", "non-termination", fmt.Sprintf("the execution did not come to rest within %d scheduler steps (threads keep working without any new input)", r.Steps)})
+		} else {
+			e.engineError("step limit reached (livelock or limit too low)")
+		}
 	case "diverged":
 		e.engineError("replay divergence: " + r.Divergence)
 	}
@@ -201,7 +206,9 @@ func (e *explorer) evaluate(s Schedule, r *vrt.Result) {
 	}
 	if e.cfg.ValidateEvery > 0 && st.Executions%e.cfg.ValidateEvery == 0 {
 		r2 := e.run(s)
-		if r2.Hash != r.Hash || r2.Outcome != r.Outcome || len(r2.Points) != len(r.Points) {
+		if r.End == "step-limit" || r2.End == "step-limit" {
+			// cut by the step / memory guard: not comparable
+		} else if r2.Hash != r.Hash || r2.Outcome != r.Outcome || len(r2.Points) != len(r.Points) {
 			e.engineError(fmt.Sprintf("nondeterministic replay of schedule %v: hash %x vs %x, outcome %q vs %q", s, r.Hash, r2.Hash, r.Outcome, r2.Outcome))
 		} else {
 			st.Validated++
